@@ -43,6 +43,7 @@ type Obligation struct {
 	Desc   string // human-readable goal
 	Vars   map[string]string // model variables of interest: label -> smt term
 	Inputs []InputSpec
+	Encoding string
 	Pkg    string
 	Result string // "unsat","sat","unknown","timeout","error"
 	Solver string
